@@ -56,6 +56,8 @@ type session struct {
 	sentReset  bool
 	// logonNotified is set when the application has been told of a logon and not yet of the logout.
 	logonNotified bool
+	// seqNumEpoch counts the resets of the sequence numbers (a gap recovery belongs to one numbering).
+	seqNumEpoch atomic.Int64
 	// sentLogonSeqNum is the MsgSeqNum of the Logon sent last while logging on.
 	sentLogonSeqNum int
 	// heartbeatDue: a Heartbeat fell due while a test request was pending (cleared by every send).
@@ -366,6 +368,7 @@ func (s *session) dropAndReset() error {
 	defer s.sendMutex.Unlock()
 
 	s.dropQueued()
+	s.seqNumEpoch.Add(1)
 	return s.store.Reset()
 }
 
@@ -428,6 +431,7 @@ func (s *session) prepMessageForSend(msg *Message, inReplyTo *Message) (msgBytes
 			}
 
 			if resetSeqNumFlag.Bool() {
+				s.seqNumEpoch.Add(1)
 				if err = s.store.Reset(); err != nil {
 					return
 				}
@@ -523,6 +527,7 @@ func (s *session) sendResendRequest(beginSeq, endSeq int) (nextState resendState
 	// Allocate the stash here: the resend state is passed around by value, so a map created
 	// later in a copy (processReject) is lost when the original is kept.
 	nextState.messageStash = make(map[int]*Message)
+	nextState.epoch = s.seqNumEpoch.Load()
 
 	resend := NewMessage()
 	resend.Header.SetBytes(tagMsgType, msgTypeResendRequest)
